@@ -431,6 +431,16 @@ pub fn replay_c15(case: &Value) -> Vec<Divergence> {
 
 // ------------------------------------------------------------------ C11 through the plugin
 
+/// number of polls after which the first deepening pass of a direct search has certainly been
+/// committed (twice what the first committing run consumed, plus slack), if that can be established
+fn polls_for_first_pass(p: &Position) -> Option<u64> {
+    let b = parse_board(&p.to_fen()).ok()?;
+    match crate::search::first_pass(&b, false, 1 << 16) {
+        Ok(Some(o)) => Some(2 * o.polls + 8),
+        _ => None,
+    }
+}
+
 fn plugin_search_case(p: &Position, k: u64) -> Vec<Divergence> {
     set_case(|| json!({"property": "C11", "case": {"kind": "plugin-search", "fen": p.to_fen(), "k": k}}).to_string());
     let fen = p.to_fen();
@@ -445,9 +455,22 @@ fn plugin_search_case(p: &Position, k: u64) -> Vec<Divergence> {
     match r {
         Err(_) => vec![Divergence::new("plugin-evaluate-panics", format!("{fen} k={k}"))],
         Ok((Some(m), _)) if !legal.contains(&ref_mv(m)) => vec![Divergence::new("plugin-evaluate-returns-illegal-move", format!("{fen} k={k}: {}", ref_mv(m).uci()))],
-        _ => vec![],
+        Ok((Some(_), _)) => {
+            PLUGIN_PROPOSALS.fetch_add(1, std::sync::atomic::Ordering::Relaxed);
+            vec![]
+        }
+        Ok((None, _)) => {
+            // legal moves exist and the limit is far beyond the first pass: a move is due
+            if !legal.is_empty() && polls_for_first_pass(p).map_or(false, |need| k >= need) {
+                vec![Divergence::new("plugin-evaluate-returns-no-move-after-a-complete-pass", format!("{fen} k={k}: legal moves exist and the first pass completes well before the limit, the plugin proposes nothing"))]
+            } else {
+                vec![]
+            }
+        }
     }
 }
+
+pub static PLUGIN_PROPOSALS: std::sync::atomic::AtomicU64 = std::sync::atomic::AtomicU64::new(0);
 
 pub fn c11_through_plugin(positions: &[Position], tier: Tier, report: &Report) -> (u64, u64) {
     if !std::path::Path::new(PLUGIN_PATH).exists() {
@@ -470,6 +493,9 @@ pub fn c11_through_plugin(positions: &[Position], tier: Tier, report: &Report) -
             (cap + 1, bad)
         })
         .collect();
+    if PLUGIN_PROPOSALS.load(std::sync::atomic::Ordering::Relaxed) == 0 {
+        machinery_failure("C11 plugin leg: the plugin never proposed a move: vacuous");
+    }
     let mut runs = 0;
     for (p, (r, bad)) in sub.iter().zip(res) {
         runs += r;
